@@ -4,6 +4,7 @@ CONSTANTS
   MaxGap = 0
   KeyCps <- KeysAB
   Yaml = FALSE
+  ImplMutant = "none"
   AllowDup = TRUE
 INVARIANTS InvLayout InvUnique InvPath
 CHECK_DEADLOCK FALSE
